@@ -960,12 +960,20 @@ def check_C04(ctx):
 # ============================================================================ node-level: maintenance / bootstrap (C11 C15 C16 C18)
 
 def maint_scenarios(ctx, minutes_q=60, minutes_t=240):
+    """(peers, silent-mask, given all / only the first, send failure towards the last peer, seed)"""
     s0 = vlib.seed() % 1000
     q = ctx.quick
     mins = minutes_q if q else minutes_t
-    combos = [(1, 0), (2, 1), (3, 2), (5, 3), (8, 4), (11, 5), (12, 7)] if q else \
-             [(p, s) for p in (1, 2, 3, 4, 5, 6, 7, 8, 10, 11, 12) for s in (0, 1, 2, 3)]
-    return [("maint-p%d-s%d" % (p, s), ["--scenario", "maint", "--peers", str(p), "--minutes", str(mins), "--seed", str(s0 + s)]) for p, s in combos]
+    combos = [(1, 0, 1, 0), (2, 0b10, 1, 0), (3, 0b010, 0, 0), (3, 0, 0, 0), (5, 0b10100, 0, 0), (8, 0b01010100, 1, 0),
+              (12, 0, 1, 0), (11, 0b100, 0, 0), (4, 0b1000, 0, 1)]
+    if not q:
+        combos += [(p, m, g, 0) for p in (2, 3, 4, 6, 7, 8, 10, 12) for m in (0, 0b10, 0b0101010, 0b11111110) for g in (0, 1)]
+    out = []
+    for k, (p, m, g, f) in enumerate(combos):
+        out.append(("maint-p%d-m%d-g%d-f%d" % (p, m, g, f),
+                    ["--scenario", "maint", "--peers", str(p), "--minutes", str(mins), "--seed", str(s0 + k), "--mask", str(m),
+                     "--given", str(g), "--sendfail", str(f)]))
+    return out
 
 
 def generic_node_check(ctx, scenarios, strict, what, rule, min_events=None):
@@ -994,7 +1002,8 @@ def check_C11(ctx):
 
 def check_C18(ctx):
     ctx.assumptions += LOOKUP_ASSUME + ["refresh rounds are observed through hook H3 (RefreshRound) because a round that pings nobody is invisible on the wire"]
-    sc = maint_scenarios(ctx, 45, 360)[:5 if ctx.quick else 24]
+    sc = maint_scenarios(ctx, 45, 360)
+    sc = [sc[0], sc[2], sc[3], sc[6], sc[8]] if ctx.quick else sc[:30]
     generic_node_check(ctx, sc, ["C18"], "maint",
                        "hours of virtual time with hundreds to thousands of re-bootstrap cycles (networks with fewer than 10 good nodes "
                        "re-bootstrap every 5 s); a case = one refresh round, checked against sliding windows of 30 s / 2 min / 20 min",
@@ -1020,3 +1029,25 @@ def check_C16(ctx):
                        "search() before the first datagram, during the initial round, during the bucket phase, during the back-off after a failed "
                        "first attempt and after completion; 1..4 early searches (same hash with and without announce); a case = one search",
                        {"ApiSearch": 30})
+
+
+# =========================================================================================== C01
+
+def check_C01(ctx):
+    ctx.assumptions += LOOKUP_ASSUME + [
+        "runs of many virtual hours are recorded in projection mode: only the lines that can touch token stores, peer stores and search "
+        "records (get_peers / announce_peer steps, search API lines) are written; find_node / ping maintenance traffic is not",
+        "the few seconds in which storing nodes disagree about expiry are left unspecified: 'found' is demanded while EVERY "
+        "acknowledging node still holds the pair, 'not found' once 24 h have passed since the LAST acknowledgement anywhere",
+    ]
+    s0 = vlib.seed() % 1000
+    q = ctx.quick
+    sc = [("e2e-n%d-s%d" % (n, s), ["--scenario", "e2e", "--n", str(n), "--seed", str(s0 + s)])
+          for n, s in ([(2, 0), (3, 1), (4, 2), (5, 3), (9, 4)] if q else [(n, s) for n in range(2, 10) for s in range(0, 4)])]
+    sc += [("e2e-long-n%d-s%d" % (n, s), ["--scenario", "e2e", "--n", str(n), "--long", "1", "--seed", str(s0 + s)])
+           for n, s in ([(2, 5)] if q else [(2, 5), (3, 6), (4, 7)])]
+    generic_node_check(ctx, sc, ["C01"], "e2e",
+                       "2..9 real serving nodes that all know each other (IPv4 / IPv6, random and adversarially clustered ids, announce port set "
+                       "or not, per-datagram latency uniform below 1 s): announcing searches and searches by every other node in random order, "
+                       "separated by gaps from 1 s to 2 h, and runs crossing 23 h 59 m / 24 h 01 m / 25 h; a case = one search",
+                       {"ApiSearch": 40})
